@@ -19,7 +19,10 @@ fn gen_grid(src: &mut Src, n: usize) -> (Vec<f64>, bool) {
     let uniform = src.below(5) == 0;
     let h0 = (1 + src.below(2048)) as f64 / 512.0;
     for _ in 1..n {
-        let h = if uniform { h0 } else { (1 + src.below(2048)) as f64 / 512.0 };
+        // non-uniform grids: one spacing in six is wide (times 2^4 .. 2^12, up to 16384): a tolerance or window that
+        // scales with the cell width then covers points the property places outside it
+        let wide = if !uniform && src.below(6) == 0 { 2f64.powi(4 + src.below(9) as i32) } else { 1.0 };
+        let h = if uniform { h0 } else { wide * (1 + src.below(2048)) as f64 / 512.0 };
         x += h;
         g.push(x);
     }
@@ -585,7 +588,7 @@ impl Prop for C19 {
         "C19"
     }
     fn rule(&self) -> String {
-        "1-D (1/2) and 2-D (1/2) meshes with 2..=12 nodes per direction on increasing dyadic grids (spacings random multiples of 2^-9 up to 4, uniform with probability 1/5; origin near 0 or, with probability 1/4, at +-2^10..2^20), 1..=4 variables, integer nodal data; \
+        "1-D (1/2) and 2-D (1/2) meshes with 2..=12 nodes per direction on increasing dyadic grids (spacings random multiples of 2^-9 up to 4, one in six of them 2^4..2^12 times wider, uniform with probability 1/5; origin near 0 or, with probability 1/4, at +-2^10..2^20), 1..=4 variables, integer nodal data; \
          write histories of 1..=30 steps through set_nodes_vars, IndexMut, +=, apply (bilinear function) and assign against an array model. Checked: nnodes/nvars/nodes/coord/xnodes/ynodes, get_nodes_vars and the index operator at every node, \
          cross_section_xnode/ynode (other direction's nodes, right row/column), var_as_matrix (nx x ny, entry (i,j)); 1-D interpolation at every node (nodal value) and at the mid-point, two random interior points and two points 2e-6..1e-4 inside either end of every cell (all at least 1e-6 from a node) \
          (linear interpolant, 1e-12 relative); trapezium and square_trapezium against the double-double sum of cell contributions, and against the closed form for linear (1-D) / bilinear (2-D) data; output(file, precision 3..=12) (one time in two over an existing longer file at the same path) then read into a mesh that previously had 2..=16 nodes and other data (and, one time in two, has been interpolated and integrated before) \
